@@ -17,7 +17,8 @@ CONSTANTS Big,         \* TRUE: include the 100 KB / 300 KB runs
           Quick,       \* TRUE: fewer dash sets / whitespace styles / writers
           Only         \* "all", or "dashsweep": only the dashed token-count sweeps (run for C13: a dash works at every template size)
 
-PadStyles == {"p", "b", "c", "e"}
+\* (q: comments with unpaired quotes / braces in their bodies and text between them; i: closed if-blocks that render nothing)
+PadStyles == {"p", "b", "c", "e", "q", "i"}
 
 NSyms(name) == Cardinality({i \in 1..Len(MainPieces(name)) : IsSymPiece(MainPieces(name)[i])})
 MaxSym == 5
@@ -45,7 +46,7 @@ Runs14(c) ==
     \* (the same templates handed over as compiled bytes: the size classes of that route)
     \cup {[label |-> "len" \o ToString(l) \o "/compiled", tp |-> SourcesOf(c, FALSE), xcalls |-> [id \in {} |-> 0],
            pads |-> PadTable(c, l, 0), writer |-> "", via |-> "compiled"] : l \in Lens \cup {70000}}
-    \cup (IF Cardinality(c.padAt) = 1 /\ c.ps # "e"
+    \cup (IF Cardinality(c.padAt) = 1 /\ c.ps \notin {"e", "q", "i"}
           THEN {[label |-> "total" \o ToString(t) \o "/", tp |-> SourcesOf(c, FALSE), xcalls |-> [id \in {} |-> 0],
                  pads |-> PadTable(c, 0, t), writer |-> ""] : t \in Totals}
           ELSE {})
